@@ -42,7 +42,8 @@ def setup(obs):
 
 QKINDS = ['bbox', 'boundary', 'boundary', 'far', 'lattice', 'mixed']
 FORMS = [('scalar', None), ('empty', (0,)), ('1d', None), ('1d', None), ('2d', None), ('3d', (2, 1, 3)),
-         ('2d-transposed', None), ('2d-fortran', None), ('1d-strided', None), ('2d-sliced', None), ('1d-reversed', None)]
+         ('2d-transposed', None), ('2d-fortran', None), ('1d-strided', None), ('2d-sliced', None), ('1d-reversed', None),
+         ('one-element', (1,)), ('one-element', (1, 1)), ('one-element', (1, 1, 1))]
 DTYPES = ['float64', 'float64', 'float64', 'float32', 'int64', 'int32']
 
 
@@ -162,6 +163,8 @@ def make_queries(region, q):
         return regions.PixCoord(xs, ys)
     if form == 'empty':
         return regions.PixCoord(x[:0], y[:0])
+    if form == 'one-element':
+        return regions.PixCoord(x[:1].reshape(q['shape']), y[:1].reshape(q['shape']))
     if form == '2d':
         k = max(1, len(x) // 3)
         return regions.PixCoord(x[:3 * k].reshape(3, k), y[:3 * k].reshape(3, k))
@@ -191,10 +194,24 @@ def driver_extra(tier, seed, rundir):
     return suite.run_suite_lane(ID, 'contains')
 
 
+def meta_as_constructed(obs, spec, region, path='region'):
+    """a freshly constructed region carries exactly the meta it was given (nothing inherited from other regions
+    built or edited earlier in this process)."""
+    if spec['cls'] == 'CompoundPixelRegion':
+        meta_as_constructed(obs, spec['p']['region1'], region.region1, path + '.region1')
+        meta_as_constructed(obs, spec['p']['region2'], region.region2, path + '.region2')
+        if 'meta' not in spec:
+            return
+    given = dict(spec.get('meta') or {})
+    obs.check(dict(region.meta) == given, 'fresh-region-meta-differs-from-construction',
+              f'{type(region).__name__} constructed with meta={given} carries {dict(region.meta)} ({path})', 'meta-as-constructed')
+
+
 def run_case(case, obs):
     if case['lane'].startswith('suite:'):
         return monitors.replay_suite_case(case, obs)
     region = S.build(case['region'])
+    meta_as_constructed(obs, case['region'], region)
     pc = make_queries(region, case['q'])
     res = region.contains(pc)          # judged by the installed monitor
     if case.get('history'):
